@@ -73,6 +73,7 @@ func main() {
 	if *genBaseline {
 		set := map[string]bool{}
 		info := map[string]string{}
+		fields := map[string]bool{}
 		for _, cfg := range [][2]string{{"linux", "amd64"}, {"linux", "386"}, {"windows", "amd64"}, {"illumos", "amd64"}} {
 			p, err := an.Load(*repo, cfg[0], cfg[1], nil)
 			if err != nil {
@@ -81,6 +82,9 @@ func main() {
 			}
 			for _, k := range an.BaselineKeys(p.Roots) {
 				set[k] = true
+			}
+			for _, l := range an.BaselineFieldLines(p.Roots) {
+				fields[l] = true
 			}
 			for k, v := range an.BaselineLines(p.Roots) {
 				if _, ok := info[k]; !ok {
@@ -98,9 +102,16 @@ func main() {
 				keys[i] = k + "\t" + v
 			}
 		}
+		var fl []string
+		for l := range fields {
+			fl = append(fl, l)
+		}
+		sort.Strings(fl)
+		nfuncs := len(keys)
+		keys = append(keys, fl...)
 		hdr := "# functions declared in non-test files of the pinned tree (union over linux/amd64, linux/386, windows/amd64, illumos/amd64)\n# a function NOT listed here is treated as an extracted helper and inlined before analysis (tool/an/normalize.go)\n# columns: key, package, flattened signature, display name – used to recognise a renamed function (tool/an/rename.go)\n"
 		os.WriteFile(filepath.Join(*verif, "baseline_funcs.txt"), []byte(hdr+strings.Join(keys, "\n")+"\n"), 0o644)
-		fmt.Println(len(keys), "functions")
+		fmt.Println(nfuncs, "functions,", len(fl), "fields")
 		return
 	}
 	if err := an.LoadBaseline(filepath.Join(*verif, "baseline_funcs.txt")); err != nil {
